@@ -346,11 +346,12 @@ class extract_visitor(NodeVisitor):
                         n.location = np(node)
                     p._names.sort()
 
-        elt = getattr(node, 'elt', None) or node.value  # type: ast.AST # type: ignore[union-attr]
-        self.visit_in_flow(elt, p)
-
+        # the element may hold comprehensions of its own, which open regions
         if hasattr(node, 'key'):
-            self.visit_in_flow(node.key, p)
+            p = self.visit_in_flow(node.key, p)
+
+        elt = getattr(node, 'elt', None) or node.value  # type: ast.AST # type: ignore[union-attr]
+        p = self.visit_in_flow(elt, p)
 
         self.flow = self.make_flow('comp-join', [cur, p])
         self.flow.scope.flow = self.flow
